@@ -4,5 +4,9 @@ package cli
 
 // Contracts for the deductive verifier in /verif (govc). Comments only; compiled solely with -tags verif.
 
-//@ assume func ContainsString
+//@ func ContainsString
+//@   property C36
+//@   modifies nothing
+//@   opt nopanic=off
+//@   opt panics=allowed
 //@   pure
